@@ -184,3 +184,68 @@ package main
 //@   calls Client.RequestAndDecode#1: requires $1 == "GET" && $2 == "arvados/v1/collections" && params.Count == "exact" && *params.Limit == 0
 //@   calls Client.RequestAndDecode#1: set rerr = $r
 //@   ensures result1 == rerr
+
+// Sending the lists: each server is sent ITS OWN pull list to /pull and ITS OWN
+// trash list to /trash, as a PUT to that server's base URL; the per-server
+// function runs for every server exactly with that server; a failure on any
+// server is reported (Run then does not go on from pulls to trash).
+//@ func KeepService.URLBase property C05 pure
+//@   modifies nothing
+//@ func KeepService.CommitPulls property C05
+//@   calls KeepService.put#1: requires $recv == srv && $2 == "pull" && $3 == iface(srv.ChangeSet.Pulls)
+//@ func KeepService.CommitTrash property C05
+//@   calls KeepService.put#1: requires $recv == srv && $2 == "trash" && $3 == iface(srv.ChangeSet.Trashes)
+//@ func KeepService.put property C05 safety -nil
+//@   calls http.NewRequestWithContext#1: requires $1 == "PUT" && $2 == KeepService.URLBase(srv) + "/" + path
+//@   ghost derr error = nil
+//@   calls Client.DoAndDecode#1: requires $1 == req
+//@   calls Client.DoAndDecode#1: set derr = $r
+//@   ensures result == nil ==> derr == nil
+//@ func Balancer.CommitPulls$1 property C05,C06
+//@   calls KeepService.CommitPulls#1: requires $recv == srv && $0 == ctx && $1 == c
+//@ func Balancer.CommitTrash$1 property C05,C06
+//@   calls KeepService.CommitTrash#1: requires $recv == srv && $0 == ctx && $1 == c
+//@ func Balancer.commitAsync property C05,C06 safety -bounds,-nil
+//@   ghost l0 error = nil
+//@   at assign err#1: set l0 = lastErr
+//@   at loop 2 back: assert (err != nil ==> lastErr != nil) && (l0 != nil ==> lastErr != nil)
+//@   calls Balancer.commitAsync$1#1: requires $0 == srv
+//@ func Balancer.commitAsync$1 property C05,C06 safety -nil
+//@   ghost ferr error = nil
+//@   calls f#1: requires $0 == srv
+//@   calls f#1: set ferr = $r
+//@   ensures ferr != nil ==> err != nil
+
+// ClearTrashLists: what is sent to every server is an empty trash list (a
+// fresh, empty change set per server - nothing of an earlier run survives).
+//@ spec macro cleared(bal, n) bool = forall a int :: 0 <= a && a < n ==> mapat(bal.KeepServices, a).ChangeSet != nil && len(mapat(bal.KeepServices, a).ChangeSet.Trashes) == 0 && len(mapat(bal.KeepServices, a).ChangeSet.Pulls) == 0
+//@ func Balancer.ClearTrashLists property C05,C06 safety -bounds,-nil
+//@   loop 1: invariant bal == old(bal) && cleared(bal, $i)
+//@   calls Balancer.CommitTrash#1: requires cleared(bal, len(bal.KeepServices)) && $0 == ctx && $1 == c
+
+// The block state table (what balanceBlock decides from).  A replica is
+// recorded with the mount it was listed by and the time the index reported;
+// the desired replication of a block in a class only ever grows, to at least
+// the requested n, for every class named (or "default" when none is named);
+// every listed / referenced block gets its entry.
+//@ func BlockState.addReplica property C05
+//@   ensures len(bs.Replicas) == old(len(bs.Replicas)) + 1 && bs.Replicas[len(bs.Replicas)-1] == r
+//@   ensures forall k int :: 0 <= k && k < old(len(bs.Replicas)) ==> bs.Replicas[k] == old(bs.Replicas[k])
+//@ func BlockState.increaseDesired property C05 safety -bounds
+//@   at loop 1 back: assert has(bs.Desired, class) && bs.Desired[class] >= n
+//@   ghost d0 $dom[string] = dom(bs.Desired)
+//@   ghost v0 $val[string]int = vals(bs.Desired)
+//@   at assign class#1: set d0 = dom(bs.Desired)
+//@   at assign class#1: set v0 = vals(bs.Desired)
+//@   ghost nil0 bool = false
+//@   at assign class#1: set nil0 = (bs.Desired == nil)
+//@   at loop 1 back: assert forall c string :: !nil0 && d0[c] ==> has(bs.Desired, c) && bs.Desired[c] >= v0[c]
+//@ func BlockStateMap.get property C05 safety -nil
+//@   ensures result != nil && (bsm.entries != nil ==> has(bsm.entries, blkid) && bsm.entries[blkid] == result)
+//@   ensures old(has(bsm.entries, blkid) && bsm.entries[blkid] != nil) ==> result == old(bsm.entries[blkid])
+//@ func BlockStateMap.AddReplicas property C05 safety -bounds,-nil
+//@   calls BlockStateMap.get#1: requires $0 == ent.SizedDigest
+//@   calls BlockState.addReplica#1: requires $0.KeepMount == mnt && $0.Mtime == ent.Mtime
+//@ func BlockStateMap.IncreaseDesired property C05 safety -bounds,-nil
+//@   calls BlockStateMap.get#1: requires $0 == blkid
+//@   calls BlockState.increaseDesired#1: requires $0 == pdh && $1 == classes && $2 == n
